@@ -99,7 +99,9 @@ def kernel_impl(f, args):
   return fr(v)
 
 
-def probe_kernels():
+def probe_kernels(used=None):
+  """used: the kernel functions the calling property's statement depends on (None = all); a disagreement confined to other kernels is
+  recorded in the statistics, not as a broken obligation of that property"""
   import warnings
   import numpy as np
   cases = kernel_cases()
@@ -121,12 +123,14 @@ def probe_kernels():
   broken = []
   if err:
     broken.append({'kind': 'correspondence-run', 'name': 'probe:kernels', 'detail': err})
+  elsewhere = sorted({KNAMES[cases[i][0]] for i in idx if used is not None and KNAMES[cases[i][0]] not in used})
+  idx = [i for i in idx if used is None or KNAMES[cases[i][0]] in used]
   if idx:
     f, args = cases[idx[0]]
     broken.append({'kind': 'correspondence', 'name': 'probe:kernels',
                    'detail': '%d of %d direct kernel calls disagree with the snapshot model; first: %s(%s)' % (
                        len(idx), len(cases), KNAMES[f], ', '.join(str(a) for a in args))})
-  return broken, {'cases': len(cases), 'disagree': len(idx)}
+  return broken, {'cases': len(cases), 'disagree': len(idx), 'disagree_in_kernels_this_property_does_not_use': elsewhere}
 
 
 def _probe_with(modname, kinds, tag):
